@@ -34,3 +34,18 @@ Print Assumptions C09_delete_order_free.
 Theorem C09_sorted_walk_order_free : forall o1 o2, Permutation o1 o2 -> isort o1 = isort o2.
 Proof. exact sorted_walk_order_free. Qed.
 Print Assumptions C09_sorted_walk_order_free.
+
+(* sorting with a comparison of the caller's: order-free when the comparison is a total order on the keys ... *)
+Theorem C09_sorted_by_walk_order_free : forall (K : Type) (leb : K -> K -> bool),
+  (forall x y, leb x y = true \/ leb y x = true) ->
+  (forall x y, leb x y = true -> leb y x = true -> x = y) ->
+  (forall x y z, leb x y = true -> leb y z = true -> leb x z = true) ->
+  forall o1 o2, Permutation o1 o2 -> gsort K leb o1 = gsort K leb o2.
+Proof. exact gsorted_walk_order_free. Qed.
+Print Assumptions C09_sorted_by_walk_order_free.
+(* ... which CheckRootSchema's typeCheckedBefore is (unnamed types by file and creation order, named ones by name) *)
+Theorem C09_type_order_total : (forall a b, tk_leb a b = true \/ tk_leb b a = true) /\
+  (forall a b, tk_ok a -> tk_ok b -> tk_leb a b = true -> tk_leb b a = true -> a = b) /\
+  (forall a b c, tk_leb a b = true -> tk_leb b c = true -> tk_leb a c = true).
+Proof. exact (conj tk_total (conj tk_antisym tk_trans)). Qed.
+Print Assumptions C09_type_order_total.
